@@ -172,6 +172,10 @@ def twin_case(rng, opts):
             body = ("if", ("infix", ("read", nm), rng.choice(["==", "<", "!="]), ("int", 1, "dec")), a, b)
         elif k < 0.6:
             body = ("cat", [("sub", rng.random() < 0.5, (), ("infix", ("read", nm), "==", ("int", rng.randint(0, 2), "dec"))), body])
+        elif k < 0.75:
+            # a closure whose body reads the name: equal start stacks, different steps
+            step = ("cat", [("read", nm), ("word", "add"), ("infix", ("cat", []), "<", ("int", rng.randint(3, 7), "dec"))])
+            body = ("cat", [("int", 0, "dec"), ("close", rng.choice("*+"), ("paren", (), step))] + ([("word", "drop"), body] if rng.random() < 0.3 else []))
         prog = ("paren", (nm,), body)
     return prog, stacks
 
@@ -215,6 +219,25 @@ def job(payload):
                 else:
                     stream.append(S(rng.choice(pats)))
             stacks = [[S(("#%d" % (j + 1)).encode()), v] for j, v in enumerate(stream)]
+            if rng.random() < 0.3:
+                # a LONG sequence, of which several copies are alive: one is appended to for every stack of a stream / in every ALT branch /
+                # on every round of a closure, the others are read afterwards and must still be what they were
+                I = lambda v: ("int", v, "dec")
+                n = rng.choice([63, 64, 65, 70, 130])
+                L = ("cap", (), ("alt", [I(i % 7) for i in range(n)]))
+                one = lambda v: ("cap", (), I(v))
+                k = rng.random()
+                if k < 0.35:
+                    body = ("cat", [("read", "L"), ("cap", (), ("read", "N")), ("word", "add"), ("word", "length"), ("read", "L"), ("word", "length")])
+                    prog = ("cat", [L, ("paren", ("L",), ("cat", [("alt", [I(1), I(2), I(3)]), ("paren", ("N",), body)]))])
+                elif k < 0.7:
+                    prog = ("cat", [L, ("word", "dup"), ("paren", (), ("alt", [("cat", [one(1), ("word", "add")]), ("cat", [one(2), ("word", "add")]), ("cat", [])])),
+                                    ("word", "length"), ("word", "swap"), ("word", "length")])
+                else:
+                    step = ("cat", [one(7), ("word", "add"), ("infix", ("word", "length"), "<", I(n + 3))])
+                    prog = ("cat", [L, ("word", "dup"), ("close", rng.choice("*+"), ("paren", (), step)), ("word", "length"), ("word", "swap"), ("word", "length")])
+                cases.append((prog, [[S(b"#1")], [S(b"#2")]] if rng.random() < 0.5 else []))
+                continue
             hay = S(rng.choice(hays))
             k = rng.random()
             if k < 0.3:
